@@ -84,10 +84,35 @@ def run_harness(binary, args, cwd, timeout=3600, env=None, ok_codes=(0,)):
     except subprocess.TimeoutExpired:
         raise Infra("harness %s timed out after %ds" % (args[0], timeout))
     if p.returncode not in ok_codes:
+        crash = crash_in_code_under_test(p.stderr or "")
+        outs = [str(args[i + 1]) for i, a in enumerate(args[:-1]) if str(a) == "-out"]
+        if crash and outs and os.path.exists(outs[0]):
+            # the code under test took the process down: that is an observation, not harness trouble.
+            # It is appended to the recording; no action of any trace specification explains it.
+            with open(outs[0], "a") as f:
+                f.write(json.dumps({"ev": "crash", "what": crash, "exit": p.returncode}) + "\n")
+            log("[harness] %s: process died inside the code under test: %s" % (args[0], crash[:200]))
+            return p
         raise Infra("harness %s exited %d:\n%s" % (" ".join(map(str, args[:3])), p.returncode,
                                                   (p.stderr or "")[-3000:]))
     log("[harness] %s: %.1fs" % (args[0], time.time() - t0))
     return p
+
+
+def crash_in_code_under_test(stderr):
+    """If the process died of a Go panic / fatal error whose crashing goroutine was executing code of
+    /repo (github.com/coredhcp/coredhcp/...), return a one-line description, else None."""
+    m = re.search(r"^(fatal error: .*|panic: .*)$", stderr, re.M)
+    if not m:
+        return None
+    rest = stderr[m.start():]
+    blocks = re.split(r"\n\s*\n", rest)
+    # the first goroutine block printed is the one that crashed
+    first = "\n".join(blocks[:3])
+    if "github.com/coredhcp/coredhcp/" in first:
+        fr = re.findall(r"(github.com/coredhcp/coredhcp/[^\s(]+)", first)
+        return "%s in %s" % (m.group(1)[:160], fr[0] if fr else "?")
+    return None
 
 
 # ------------------------------------------------------------------------------------------
